@@ -130,6 +130,7 @@ type vc struct {
 	fnName    string
 	imprecise []string
 	trusted   map[string]bool
+	balDecls  map[string]bool
 	heapSort  map[string]string
 	heapMemo  map[string]string
 	epochs    []epochInfo
